@@ -25,6 +25,9 @@ IsS(v) == v[1] = "s"
 IsM(v) == v[1] = "m"
 IsA(v) == v[1] = "a"
 
+\* the same sequence, as an explicit tuple (TLC evaluates [i \in 1..n |-> e] anew at every application otherwise)
+Tup(f) == f \o <<>>
+
 RECURSIVE Cat(_)
 Cat(ss) == IF ss = <<>> THEN <<>> ELSE Head(ss) \o Cat(Tail(ss))
 
@@ -32,7 +35,7 @@ Cat(ss) == IF ss = <<>> THEN <<>> ELSE Head(ss) \o Cat(Tail(ss))
 RECURSIVE DigitsOf(_)
 DigitsOf(i) == IF i < 10 THEN <<ToString(i)>> ELSE DigitsOf(i \div 10) \o <<ToString(i % 10)>>
 
-KeysOf(r) == [i \in 1..Len(r) |-> r[i][1]]
+KeysOf(r) == Tup([i \in 1..Len(r) |-> r[i][1]])
 DistinctKeys(r) == \A i, j \in 1..Len(r) : i # j => r[i][1] # r[j][1]
 IsFlat(r) == \A i \in 1..Len(r) : IsS(r[i][2])
 
@@ -65,11 +68,11 @@ Flatten(sep, r) == Cat([i \in 1..Len(r) |-> FlatVal(sep, r[i][1], r[i][2])])
 RECURSIVE Arrayify(_)
 Arrayify(v) ==
   IF IsS(v) THEN v
-  ELSE IF IsA(v) THEN A([i \in 1..Len(v[2]) |-> Arrayify(v[2][i])])
-  ELSE LET b == [i \in 1..Len(v[2]) |-> <<v[2][i][1], Arrayify(v[2][i][2])>>] IN
+  ELSE IF IsA(v) THEN A(Tup([i \in 1..Len(v[2]) |-> Arrayify(v[2][i])]))
+  ELSE LET b == Tup([i \in 1..Len(v[2]) |-> <<v[2][i][1], Arrayify(v[2][i][2])>>]) IN
        IF Len(b) >= 1 /\ \A i \in 1..Len(b) : b[i][1] = DigitsOf(i)
-       THEN A([i \in 1..Len(b) |-> b[i][2]]) ELSE M(b)
-ArrayifyRec(r) == [i \in 1..Len(r) |-> <<r[i][1], Arrayify(r[i][2])>>]
+       THEN A(Tup([i \in 1..Len(b) |-> b[i][2]])) ELSE M(b)
+ArrayifyRec(r) == Tup([i \in 1..Len(r) |-> <<r[i][1], Arrayify(r[i][2])>>])
 
 (***************************************************************************)
 (* Unflatten: "simply the reverse".  A field name is split at the           *)
@@ -92,8 +95,10 @@ Pieces(sep, k) == Split(sep, k, <<>>)
 Contains(sep, k) == Len(Pieces(sep, k)) > 1
 PathOf(sep, k) == LET p == Pieces(sep, k) IN IF \E i \in 1..Len(p) : p[i] = <<>> THEN <<k>> ELSE p
 
+RECURSIVE Paths(_, _)
+Paths(sep, r) == IF r = <<>> THEN <<>> ELSE <<PathOf(sep, r[1][1])>> \o Paths(sep, Tail(r))
 IsPrefix(p, q) == Len(p) <= Len(q) /\ SubSeq(q, 1, Len(p)) = p
-Clash(sep, r) == \E i, j \in 1..Len(r) : i # j /\ IsPrefix(PathOf(sep, r[i][1]), PathOf(sep, r[j][1]))
+Clash(sep, r) == LET ps == Paths(sep, r) IN \E i, j \in 1..Len(r) : i # j /\ IsPrefix(ps[i], ps[j])
 
 Terminal(v) == IF v = S(EmptyMapText) THEN M(<<>>) ELSE IF v = S(EmptyArrayText) THEN A(<<>>) ELSE v
 
@@ -110,10 +115,11 @@ PutPath(body, path, val) ==
 
 \* r is a flat record without Clash
 Unflatten(sep, r) ==
-  LET F[i \in 0..Len(r)] == IF i = 0 THEN <<>> ELSE PutPath(F[i - 1], PathOf(sep, r[i][1]), Terminal(r[i][2]))
+  LET ps == Paths(sep, r)
+      F[i \in 0..Len(r)] == IF i = 0 THEN <<>> ELSE PutPath(F[i - 1], ps[i], Terminal(r[i][2]))
       b == F[Len(r)]
-      built == {PathOf(sep, r[i][1])[1] : i \in {j \in 1..Len(r) : Len(PathOf(sep, r[j][1])) > 1}}
-  IN [i \in 1..Len(b) |-> IF b[i][1] \in built THEN <<b[i][1], Arrayify(b[i][2])>> ELSE b[i]]
+      built == {ps[i][1] : i \in {j \in 1..Len(r) : Len(ps[j]) > 1}}
+  IN Tup([i \in 1..Len(b) |-> IF b[i][1] \in built THEN <<b[i][1], Arrayify(b[i][2])>> ELSE b[i]])
 
 (***************************************************************************)
 (* When they happen.  "When the output format is not JSON or YAML ... Miller *)
@@ -132,7 +138,7 @@ ConvertRec(i, o, sep, noun, r) ==
   ELSE IF AutoUnflatten(i, o, noun) THEN Unflatten(sep, r)
   ELSE r
 \* the records a reader of format o gets from what `mlr --i<i> --o<o> cat` wrote for the records s
-ConvertAB(i, o, sep, noun, s) == [n \in 1..Len(s) |-> ConvertRec(i, o, sep, noun, s[n])]
+ConvertAB(i, o, sep, noun, s) == Tup([n \in 1..Len(s) |-> ConvertRec(i, o, sep, noun, s[n])])
 
 (***************************************************************************)
 (* What each format can carry (the common domain of the property), clause    *)
@@ -183,6 +189,14 @@ InDomain(path, sep, noun, s) ==
   ELSE /\ \A n \in 1..Len(s) : ~Undefined(path[1], path[2], sep, noun /\ Len(path) = 2, s[n])
        /\ LET t == ConvertAB(path[1], path[2], sep, noun /\ Len(path) = 2, s) IN
           Carries(path[2], t) /\ InDomain(Tail(path), sep, noun, t)
+
+\* both at once, for judging observations: <<InDomain, ConvertPath>> (the second is meaningful only if the first holds)
+RECURSIVE Walk(_, _, _, _)
+Walk(path, sep, noun, s) ==
+  IF Len(path) < 2 THEN <<TRUE, s>>
+  ELSE IF \E n \in 1..Len(s) : Undefined(path[1], path[2], sep, noun /\ Len(path) = 2, s[n]) THEN <<FALSE, s>>
+  ELSE LET t == ConvertAB(path[1], path[2], sep, noun /\ Len(path) = 2, s) IN
+       IF Carries(path[2], t) THEN Walk(Tail(path), sep, noun, t) ELSE <<FALSE, t>>
 
 \* the judgement of one observed pipeline
 Allowed(path, sep, noun, s, out) == InDomain(path, sep, noun, s) => out = ConvertPath(path, sep, noun, s)
